@@ -1,5 +1,6 @@
 import InfluxQL.Gen.Params
 import InfluxQL.Lemmas.Bind
+import InfluxQL.Lemmas.BindSim
 /-!
 # C07 — bound parameters are substituted as single tokens, never re-lexed
 
@@ -285,6 +286,72 @@ theorem string_placeholder_is_literal (fuel : Nat) (s : PState)
     (parseUnaryExpr (fuel + 1)).run s =
       .ok (.string (substTok s.params (rawNext false s).1).lit, (rawNext false s).2) :=
   parseUnaryExpr_string_token fuel s h
+
+/-! ## The value is never re-lexed: the whole expression parser -/
+
+theorem paramsRel_refl (p : List (Str × BoundValue)) : ParamsRel p p := by
+  induction p with
+  | nil => trivial
+  | cons x t ih => obtain ⟨k, v⟩ := x; exact ⟨rfl, rfl, fun _ => rfl, ih⟩
+
+theorem all2_mono {α : Type} {R R' : α → α → Prop} {l1 l2 : List α} (h : All2 R l1 l2)
+    (hr : ∀ x y, R x y → R' x y) : All2 R' l1 l2 := by
+  induction h with
+  | nil => exact All2.nil
+  | cons h _ ih => exact All2.cons (hr _ _ h) ih
+
+/-- **C07 (no re-lexing, whole parser).** Parse the same text with two parameter maps that bind
+the same names to values of the same kinds and differ only in the texts of string values
+(`ParamsRel`). Then either both parses fail (with failures of the same kind), or both succeed and
+the two ASTs are identical up to the contents of string literals (`blank`: every string literal
+emptied), the contents being pairwise equal or the two texts of one string-valued parameter
+(`strs`: the string contents from left to right, related by `DRel`). So no content of a string
+value — quotes, semicolons, comment markers, keywords — can change the structure of the
+expression, turn success into failure, or change any other node. Proved by a lock-step
+simulation of the two runs through every function of the expression parser
+(Lemmas/BindSim.lean). -/
+theorem value_not_relexed (text : Str) (tbl : List (Char × Char)) (p1 p2 : List (Str × BoundValue))
+    (hp : ParamsRel p1 p2) :
+    match parseExprText text p1 tbl, parseExprText text p2 tbl with
+    | .ok e1, .ok e2 => e1.blank = e2.blank ∧ All2 (DRel p1 p2) e1.strs e2.strs
+    | .error f1, .error f2 => FRel f1 f2
+    | _, _ => False :=
+  parseExprText_sim hp text tbl
+
+/-- The same for one placeholder: `p ↦ "a"` against `p ↦ "b"` (all other parameters equal). Every
+string literal of the first AST is equal to the corresponding one of the second, or is `a` where
+the second has `b`. -/
+theorem value_not_relexed_single (text : Str) (tbl : List (Char × Char)) (p : Str) (a b : Str)
+    (rest : List (Str × BoundValue)) :
+    match parseExprText text ((p, ⟨.STRING, a⟩) :: rest) tbl,
+        parseExprText text ((p, ⟨.STRING, b⟩) :: rest) tbl with
+    | .ok e1, .ok e2 => e1.blank = e2.blank ∧ All2 (fun x y => x = y ∨ (x = a ∧ y = b)) e1.strs e2.strs
+    | .error f1, .error f2 => FRel f1 f2
+    | _, _ => False := by
+  have hp : ParamsRel ((p, ⟨.STRING, a⟩) :: rest) ((p, ⟨.STRING, b⟩) :: rest) :=
+    ⟨rfl, rfl, fun h => absurd rfl h, paramsRel_refl rest⟩
+  have h := parseExprText_sim hp text tbl
+  have hD : ∀ x y, DRel ((p, ⟨.STRING, a⟩) :: rest) ((p, ⟨.STRING, b⟩) :: rest) x y →
+      x = y ∨ (x = a ∧ y = b) := by
+    intro x y hxy
+    rcases hxy with rfl | ⟨k, v1, v2, h1, h2, _, _, hx, hy⟩
+    · exact Or.inl rfl
+    · simp only [lookupParam] at h1 h2
+      by_cases hk : p = k
+      · simp only [hk, if_true, Option.some.injEq] at h1 h2
+        subst h1 h2
+        exact Or.inr ⟨hx.symm, hy.symm⟩
+      · simp only [hk, if_false] at h1 h2
+        rw [h1] at h2
+        injection h2 with h2
+        subst h2
+        exact Or.inl (hx.symm.trans hy)
+  cases h1 : parseExprText text ((p, ⟨.STRING, a⟩) :: rest) tbl <;>
+    cases h2 : parseExprText text ((p, ⟨.STRING, b⟩) :: rest) tbl <;>
+    rw [h1, h2] at h <;>
+    first
+      | exact h
+      | exact ⟨h.1, all2_mono h.2 hD⟩
 
 /-! ## Kernel-checked examples: hostile string values -/
 
